@@ -92,6 +92,10 @@ def check_tissue(res, spec, exprs, label, rng, equilibrium):
     r = np.array(pm.rhs_matrix, dtype=float)
     removed = list(pm.removed_columns)
     kept_cols = [j for j in range(len(keys)) if j not in removed]
+    if A.ndim != 2 or A.shape[1] != len(kept_cols):
+        res.fail("oracle", f"the pressure matrix has {A.shape[1] if A.ndim == 2 else '?'} columns although {len(removed)} of the {len(keys)} cells are recorded as "
+                 f"removed (cells touching no internal interface: columns {removed[:5]})", replay)
+        return
     touched = set()
     for be in internal:
         touched.update(be.own_cells)
@@ -284,6 +288,24 @@ def tissues(rng, tier):
             dg = gen.with_dangling(gen.voronoi_tissue(rng, n=int(rng.integers(30, 50)), npts=2, mob_strength=0.8), rng, k=int(rng.integers(2, 4)))
             if dg is not None:
                 yield gen.relabel(dg, rng, flip=0.3, shuffle_vertex_order=False), f"t{k}/dangling", False
+            # exactly one cell without internal interface, stored first / in the middle / last in the cells dictionary (removed column 0, j, n-1)
+            for _try in range(40):
+                base1 = gen.voronoi_tissue(rng, n=int(rng.integers(30, 50)), npts=2, mob_strength=0.8)
+                d1 = gen.with_dangling(base1, rng, k=1, core_size=int(rng.integers(7, 12)))
+                if d1 is None:
+                    continue
+                fr1 = impl.frame(d1)
+                covered = {c for be in fr1.internal_big_edges for c in be.own_cells}
+                lone = [c for c, _ in d1["cells"] if c not in covered]
+                if len(lone) != 1:
+                    continue
+                others = [cv for cv in d1["cells"] if cv[0] != lone[0]]
+                me = [cv for cv in d1["cells"] if cv[0] == lone[0]]
+                where = (k // 3) % 3
+                pos_ = 0 if where == 0 else (len(others) if where == 2 else len(others) // 2)
+                d1 = dict(d1, cells=others[:pos_] + me + others[pos_:])
+                yield d1, f"t{k}/one-dangling-at-{['front', 'middle', 'end'][where]}", False
+                break
         yield spec, f"t{k}/kind{kind}", eq
         yield gen.relabel(spec, rng, flip=float(rng.choice([0.0, 0.5, 1.0]))), f"t{k}/kind{kind}/relabelled", eq
 
